@@ -74,6 +74,9 @@ def cases(draw):
         g = {"big": draw(st.sampled_from([800, 1500]))}
         target = {"mode": "all"}
     case = {"g": g, "cfg": cfg, "target": target, "thr": thr, "option": opt, "value": val}
+    if opt == "file_output" and draw(st.booleans()):
+        # the file is written by the Shaper that already returned the text as a string (1-2 earlier calls): still the same text
+        case["after_string"] = draw(st.integers(1, 2))
     if doc_prefixes and "big" not in g:
         case["doc_prefixes"] = doc_prefixes
     return case
@@ -150,7 +153,8 @@ def check(case):
     if file_mode:
         with sut.tmpdir() as d:
             path = os.path.join(d, "out.shex")
-            r, c2 = sut.shex(kw2, acceptance_threshold=thr, string_output=False, output_file=path)
+            r, c2 = sut.shex(kw2, acceptance_threshold=thr, string_output=False, output_file=path,
+                             history=[[thr, "ShEx", "string"]] * case.get("after_string", 0) or None)
             out2 = open(path, encoding="utf-8", newline="").read() if c2 is None and os.path.exists(path) else None
             if c2 is None and out2 is None:
                 return violation("no file written")
